@@ -27,6 +27,8 @@ def run(prog, rep, tier):
     apply(rep, "O6", "integer comparison agrees with mathematical order on a representative signed/unsigned domain", r_order.o6(prog), 2)
     apply(rep, "O5", "the order on whole stacks is a strict weak order with == as its equivalence", r_order.o5(prog, tier), 1)
     apply(rep, "O10", "location-list elements and operations, abbreviation attributes and symbols are ordered: each cmp and the compare<T> it uses interpreted on all pairs and triples of abstract objects (never fails within the class, reflexive, `A < B` iff `B > A`, transitive)", r_order.o10(prog), 4)
+    import r_elf
+    apply(rep, "W5", "named ELF symbol constants of different machines are equal only for the generic codes (most_enclosing of every per-machine STT / STB domain interpreted on all 4-bit codes: machine-specific from LOOS through HIPROC)", r_elf.w5(prog), 4)
     import r_aset
     h7 = r_aset.h7(prog, tier)
     apply(rep, "O9", "address sets are totally ordered: value_aset::cmp interpreted on every pair and triple of sets over a small universe (equal iff same set, antisymmetric, transitive)",
